@@ -74,7 +74,11 @@ class T:
                 return ["var %s = \"s%d\"" % (v, c1), "print(%s + \"t\")" % v, "print(%s == \"s1\")" % v]
             if kind == 2:
                 return ["var %s = [%d, 2]" % (v, c1), "print(%s == [1, 2])" % v]
-            return ["class K%s { var q; def K%s() { this.q = %d } def `+`(int o) { this.q + o + 1000 } }" % (v, v, c1), "var %s = K%s()" % (v, v), "print(%s + 3)" % v]
+            if self.i(0, 1) == 0:
+                return ["class K%s { var q; def K%s() { this.q = %d } def `+`(int o) { this.q + o + 1000 } }" % (v, v, c1), "var %s = K%s()" % (v, v), "print(%s + 3)" % v]
+            # arithmetic variable (op) non-arithmetic constant: a user-defined operator, or the dispatch error text
+            return ["def `*`(int a, string b) { var r = \"\"; for (var j = 0; j < a; ++j) { r += b }; r }", "var %s = %d" % (v, abs(c1)), "print(%s * \"ab\")" % v,
+                    "print(%s == \"3\")" % v, "print(%s + true)" % v]
         if k == 3:   # constant conditions
             cond = self.pick(["true", "false", "1 < 2", "2 < 1", "1 == 1 && false", "!false", "3 > 2 || undefined_never_reached_zz()"])
             return ["if (%s) { print(\"T%s\") } else { print(\"F%s\") }" % (cond, v, v), "print(%s ? %d : %d)" % (cond.replace(" || undefined_never_reached_zz()", ""), c1, c2)]
@@ -107,13 +111,22 @@ class T:
             head = self.pick(["for (var I = %d; I < %d; ++I)" % (lo, hi)] * 4 + [
                 "for (var I = %d; I <= %d; ++I)" % (lo, hi), "for (auto I = %d; I < %d; ++I)" % (lo, hi), "for (var I = %d; I < %d; I += 1)" % (lo, hi),
                 "for (var I = %du; I < %du; ++I)" % (abs(lo), hi), "for (var I = %dl; I < %dl; ++I)" % (lo, hi), "for (var I = %d.0; I < %d.0; ++I)" % (lo, hi),
-                "for (var I = %d; I < %d; I++)" % (lo, hi) if False else "for (var I = %d; %d > I; ++I)" % (lo, hi)]).replace("I", v)
+                "for (var I = %d; %d > I; ++I)" % (lo, hi),
+                "for (var I = %d; OTHER < %d; ++I)" % (lo, hi), "for (var I = %d; I < %d; ++OTHER)" % (lo, hi), "for (var I = %d; OTHER < %d; ++OTHER)" % (lo, hi)]).replace("I", v)
+            other = self.name("o")
+            uses_other = "OTHER" in head
+            head = head.replace("OTHER", other)
             body = self.pick([
                 "print(I)", "sink_push(I)", "if (I == 1) { break }; print(I)", "if (I == 0) { continue }; rec(I)", "I = I + 1; print(I)",
                 "{ var I = 9; print(I) }", "counter += I", "var q = I * 2; rec(q)",
                 "%s = fun[I]() { I }" % w, "%s.push_back(fun[I]() { I * 10 })" % w, "%s := I" % w, "%s.push_back_ref(I)" % w,
                 "for (var J = 0; J < 2; ++J) { rec(I * 10 + J) }"]).replace("I", v)
             pre, post = [], []
+            if uses_other:
+                # the other variable drives (or is driven by) the header: make the loop terminate by advancing both in the body
+                pre = ["var %s = %d" % (other, lo)]
+                body = "rec(%s * 100 + %s); ++%s; if (%s > 6 || %s > 6) { break }" % (v, other, other if "++%s" % v in head else v, v, other)
+                return pre + ["%s { %s }" % (head, body), "print(%s)" % other]
             if "fun[" in body and ".push_back" in body:
                 pre, post = ["var %s = []" % w], ["for (g : %s) { print(g()) }" % w]
             elif "fun[" in body:
